@@ -270,6 +270,9 @@ func ExpandStack(name string) string {
 	last := ""
 	have := false
 	for i, l := range lines {
+		if i == 0 {
+			continue // the counter's own name, never a frame
+		}
 		j := strings.LastIndex(l, ".")
 		if j <= 0 {
 			continue
